@@ -60,6 +60,9 @@ def run(ctx):
         inputs.append(frontend.mutate_text(rng, src))
         inputs.append(frontend.type_mutate(rng, src))
     inputs += frontend.test_snippets()
+    inputs += frontend.empty_value_programs()
+    for cp in (0x110000, 0xd800, 0x7fffffff, 0x80000000, 2 ** 32, 2 ** 63, 2 ** 64, 16 ** 40):
+        inputs += ['empty @is_you() { write("\\u{%x}"); }' % cp, "empty @is_you() { write('\\u{%X}'); }" % cp]
     inputs += ['', '\n', 'empty @is_you() {}', 'empty @is_you(bool b) {}', 'empty @is_you(int[] a, int[] b) {}', 'int @is_you() { return 1; }',
                'empty @is_you() {} empty @is_you(int x) {}', 'empty f() {}', 'int g = f(); empty @is_you() { write(g); }',
                'int x = 1; int y = x + 1; empty @is_you() { write(y); }', 'int a[70000]; empty @is_you() { a[0] = 1; }',
